@@ -18,7 +18,7 @@ vars == << store, hist >>
 View == store
 
 Slots == 1..NSlots
-Vals == {"E", "Z1", "Z2", "P", "Pb", "Ph", "Pi", "Pm", "S", "Sb", "S2", "I"}
+Vals == {"E", "Z1", "Z2", "P", "Pb", "Ph", "Pi", "Pm", "Pt", "S", "Sb", "S2", "I"}
 
 Base == [dev |-> 7, st |-> 3, ver |-> 2, seq |-> 11, ts |-> << 1, 2, 3, 4, 5, 6, 7, 8 >>, ifid |-> << 0, 0, 1, 2 >>, vid |-> 77,
          fl |-> 33, seg |-> 0]
@@ -29,6 +29,7 @@ Desc(v) ==
       [] v = "P"  -> Base @@ [mt |-> 1, pt |-> 255, pl |-> << 10, 20, 30 >>]
       [] v = "Pb" -> Base @@ [mt |-> 1, pt |-> 255, pl |-> << 10, 21, 30 >>]
       [] v = "Pm" -> Base @@ [mt |-> 2, pt |-> 255, pl |-> << 10, 20, 30 >>]          \* same payload type byte and bytes, another message type
+      [] v = "Pt" -> Base @@ [mt |-> 1, pt |-> 9, pl |-> << 10, 20, 30 >>]            \* P after its payload type byte was written through a reference
       [] v = "Ph" -> [Base EXCEPT !.ts = << 1, 2, 3, 4, 5, 6, 7, 9 >>] @@ [mt |-> 1, pt |-> 255, pl |-> << 10, 20, 30 >>]
       [] v = "Pi" -> [Base EXCEPT !.ifid = << 0, 0, 1, 3 >>] @@ [mt |-> 1, pt |-> 255, pl |-> << 10, 20, 30 >>]     \* the interface id alone differs
       [] v = "I"  -> Base @@ [mt |-> 0, pt |-> 0, pl |-> << 0, 0, 0 >>]          \* payload of type invalid, as the decoder returns for a rejected message
@@ -56,6 +57,10 @@ Next ==
            Do([store EXCEPT ![d] = store[s], ![s] = "U"], [op |-> "massign", dst |-> d, src |-> s])
     \/ \E k \in Slots : store[k] \in {"P", "Ph", "S", "S2"} /\
            Do([store EXCEPT ![k] = Mut(store[k])], [op |-> "mutate", slot |-> k, ts |-> MutTs(store[k])])
+    (* a copy taken while the caller holds a reference to the source's payload, which is written through afterwards: *)
+    (* the copy keeps the value the source had (a copy shares no state with its original)                            *)
+    \/ \E d, s \in Slots : d # s /\ store[s] = "P" /\ (store[d] = "N" \/ Obj(d)) /\
+           Do([store EXCEPT ![d] = "P", ![s] = "Pt"], [op |-> "copyref", dst |-> d, src |-> s, assign |-> Obj(d), ptvia |-> 9])
     \/ \E a, b \in Slots : Val(a) /\ Val(b) /\ Do(store, [op |-> "eq", a |-> a, b |-> b])
 
 Spec == Init /\ [][Next]_vars
